@@ -422,6 +422,9 @@ def c12(tier, seed):
     # the largest representable price as an explicit limit (2^32 - 1 is off the grid of tick 2)
     book_gen(ck, "gen_create_max", cfg=GEN, Ops=["cap", "create", "place"], Tick=2, Prices=[10, MAXPRICE], Vols=[1], MaxOrders=3,
              MaxOps=3 if q else 4, need=("create_rejected",), timeout=300)
+    # ... and ON the grid of tick 3 (3 divides 2^32 - 1): such a creation is accepted, on both sides (so is price 0)
+    book_gen(ck, "gen_create_max_tick3", cfg=GEN, Ops=["cap", "create", "place"], Tick=3, Prices=[0, 9, MAXPRICE], Vols=[1], MaxOrders=3,
+             MaxOps=3 if q else 4, need=("has_trade",), timeout=300)
     # the ends of the price range: the lowest grid prices (levels reaching price 0, tick 2, four published levels) and
     # the grid points just below the maximum price (high-price regime, DESIGN.md 3.6): the per-level data accounts for all resting volume
     book_gen(ck, "gen_levels_low", cfg=GEN, Ops=["cap", "cancel"], Tick=2, NLevels=4, Prices=[0, 2, 6], Vols=[1, 2], Kinds=["L"],
